@@ -19,8 +19,9 @@ type Sched struct {
 	x            *Exec
 	threads      []*schedThread
 	cur          int
-	points       int // points passed at which another thread was enabled
-	FirstPreempt int // index of the point of the first preemption (-1: none)
+	points       int  // points passed at which another thread was enabled
+	FirstPreempt int  // index of the point of the first preemption (-1: none)
+	NoLater      bool // no preemptions after the first one (bound 1 for this execution)
 	firstTarget  int
 	Preemptions  int
 	Trace        []int // thread ids in the order they were given control
@@ -123,7 +124,7 @@ func (s *Sched) Point() {
 	switch {
 	case idx == s.FirstPreempt:
 		target = others[s.firstTarget%len(others)]
-	case s.FirstPreempt >= 0 && idx > s.FirstPreempt:
+	case s.FirstPreempt >= 0 && idx > s.FirstPreempt && !s.NoLater:
 		// later preemptions are deviations
 		if c := s.x.Dev(len(others) + 1); c > 0 {
 			target = others[c-1]
